@@ -244,6 +244,20 @@ func init() {
 			m.Apply(reflect.ValueOf(t).Elem())
 			ch <- job{m.Path + "=" + m.Variant, *t}
 		}
+		// int64 fields beyond 2^53 (pod validation accepts them: no upper bound on the grace period, any toleration time)
+		{
+			big, neg := int64(9007199254740993), int64(-9007199254740993)
+			t := baseT()
+			t.Spec.TerminationGracePeriodSeconds = &big
+			ch <- job{"int64 beyond 2^53: terminationGracePeriodSeconds=9007199254740993", *t}
+			t = baseT()
+			t.Spec.Tolerations = []v1.Toleration{{Key: "k", Operator: v1.TolerationOpExists, Effect: v1.TaintEffectNoExecute, TolerationSeconds: &neg}}
+			ch <- job{"int64 beyond 2^53: tolerations[0].tolerationSeconds=-9007199254740993", *t}
+			in := int64(9007199254740992) // exactly representable: must be fine
+			t = baseT()
+			t.Spec.TerminationGracePeriodSeconds = &in
+			ch <- job{"int64 at 2^53: terminationGracePeriodSeconds=9007199254740992", *t}
+		}
 		if thorough {
 			// pairs among the first two levels
 			var lvl []gen.Mutation
@@ -282,7 +296,7 @@ func init() {
 		rep.Extra["edit_depth"] = D
 		rep.Extra["reconciles"] = g.Reconciles
 		rep.Extra["templates_from_structural_generator"] = nTemplates
-		rep.Rule = fmt.Sprintf("(A) explicit-state search from %d seeds (new set, histories of 1-3 revisions incl. a rollback, and a pre-existing revision engineered to collide on name with the one the controller is about to create, collisionCount unset/0/1/2, owned or unrelated): every edit history of depth <=%d over {template -> T1|T2|T3, replicas +-1, slot 0 add/remove, pause on/off, label edit} interleaved with reconcile and kubelet progress, deduplicated by state; every write on a ControllerRevision may additionally hit a conflict (stale or refreshed view), an InternalError or a lost response (counted as one of the edits); oracle after every successful reconcile: updateRevision names a stored revision whose data applied to the set reproduces the template (real ApplyRevision + semantic equality), a template already recorded never adds a revision and its revision is re-used and numbered above all others, non-template edits never move updateRevision, the colliding revision is never overwritten or taken as update revision. (B) a reflective generator over PodTemplateSpec (every path set alone to each variant; thorough: all pairs in the first two levels): one new set per template, two reconciles; the revision must mirror the template and the second reconcile must add nothing.", len(seeds), D)
+		rep.Rule = fmt.Sprintf("(A) explicit-state search from %d seeds (new set, histories of 1-3 revisions incl. a rollback, and a pre-existing revision engineered to collide on name with the one the controller is about to create, collisionCount unset/0/1/2, owned or unrelated): every edit history of depth <=%d over {template -> T1|T2|T3, replicas +-1, slot 0 add/remove, pause on/off, label edit} interleaved with reconcile and kubelet progress, deduplicated by state; every write on a ControllerRevision may additionally hit a conflict (stale or refreshed view), an InternalError or a lost response (counted as one of the edits); oracle after every successful reconcile: updateRevision names a stored revision whose data applied to the set reproduces the template (real ApplyRevision + semantic equality), a template already recorded never adds a revision and its revision is re-used and numbered above all others, non-template edits never move updateRevision, the colliding revision is never overwritten or taken as update revision. (B) a reflective generator over PodTemplateSpec (every path set alone to each variant, plus int64 fields at and beyond 2^53; thorough: all pairs in the first two levels): one new set per template, two reconciles; the revision must mirror the template and the second reconcile must add nothing.", len(seeds), D)
 		rep.Validated = g.Reconciles + 2*nTemplates
 		return rep.Finish()
 	})
